@@ -116,8 +116,12 @@ def worker_main(prop: str, seed: int, tier: str, ks: list[int], budget: float, o
                 res["k"] = k
                 if res["status"] == "ok":
                     collect.nontrivial.update(ctx.nontrivial)
-                    if len(samples) < 2 and ctx.nontrivial and len(g["ops"]) <= getattr(drv, "SAMPLE_MAXOPS", 14):
-                        samples.append({"segment": k, "cfg": g["cfg"], "ops": g["ops"]})
+                    maxops = getattr(drv, "SAMPLE_MAXOPS", 14)
+                    if len(samples) < 2 and ctx.nontrivial and (len(g["ops"]) <= maxops or getattr(drv, "SAMPLE_TRUNCATE", False)):
+                        smp = {"segment": k, "cfg": g["cfg"], "ops": g["ops"][:maxops]}
+                        if len(g["ops"]) > maxops:
+                            smp["ops_omitted"] = len(g["ops"]) - maxops
+                        samples.append(smp)
                 else:
                     res["cfg"] = g["cfg"]
                     res["ops"] = g["ops"][: res["nops"]] if res["status"] == "violation" else g["ops"]
